@@ -8,6 +8,7 @@
 //	typeof   typeOf / kindOf against reflect
 //	conv     toInt toFloat toString toRune toChar toByteSlice toRuneSlice to{Int,Float,String,Bool}Slice
 //	misuse   wrong argument count / type: an error, never a crash
+//	conv_overlap  the conversion builtins while other calls of them are in progress (other environments, shared environment, script goroutines)
 //	tables   every entry of env.Packages / env.PackageTypes (exhaustive)
 package c19
 
@@ -34,5 +35,10 @@ func TestC19(t *testing.T) {
 	h.Run(c, "len", c.N(12000, 50000), genLen, lenOracle)
 	h.Run(c, "typeof", c.N(12000, 50000), genType, typeOracle)
 	h.Run(c, "conv", c.N(50000, 200000), genConv, convOracle)
+	c.Rule("misuse, mode rangetype (1 in 8): range with 1-3 arguments (plain or as a spread list literal) of which at least one - at any position - is a string, a bool, a list, a map or a typed slice, the others integers in -5..20; every argument is spelled as literal, variable, host-defined variable, element, map entry or result of a script function: an error is required")
 	h.Run(c, "misuse", c.N(12000, 50000), genMisuse, misuseOracle)
+	c.Rule("conv_overlap: 2-6 calls of conversion builtins (in half of the cases all of one typed-slice form, else typed-slice forms mixed or any builtin of the family; typed-slice arguments are untyped lists of 1-200 elements), each with an argument of its own, made alone and then repeated 2-32 times at the same time - in environments of their own, in one shared environment, or as script goroutines of one script; every result is judged against the Go reference of its own argument; non-trivial = some argument outside the small-literal set")
+	h.Run(c, "conv_overlap", c.N(500, 4000), genOverlap, func(tc OverlapCase, o *h.Obs) *h.Fail {
+		return overlapOracle(tc, o, c.InReplay()) // a replayed case (--replay, regression replays) is repeated more often
+	})
 }
